@@ -357,7 +357,7 @@ open MythVerif.Wsq (Elem Pid Holder retOpt)
 /-! ## x86-TSO machine: bounded exhaustive search with the fence positions as a parameter -/
 
 inductive Cmd where
-  | push (e : Elem) | pop | take | put (e : Elem) | pass (e : Elem) | peek | wtake | wpeek
+  | push (e : Elem) | pop | take | put (e : Elem) | pass (e : Elem) | peek | wtake | wpeek | clear
   deriving Repr
 
 structure Cfg where
@@ -387,6 +387,7 @@ def opcKey : OPc → List Int
   | .puv e off => [30, e, off] | .pux e t => [31, e, t] | .pt2 e => [32, e] | .pt3 e off => [33, e, off]
   | .pt4 e off => [34, e, off] | .pt5 e off => [35, e, off]
   | .po5c t r => [36, t] ++ optKey r | .po5d r => 37 :: optKey r
+  | .assertFail => [38] | .cll => [39] | .cl1 => [40] | .cl2 => [41] | .cl3 => [42]
 
 def tpcKey : TPc → List Int
   | .idle => [0] | .tq0 => [1] | .tq1 t => [2, t] | .tkl => [3] | .tk1 => [4] | .tkf b => [5, b]
@@ -404,7 +405,7 @@ def lockKey : Holder → Int
   | .free => 0 | .owner => 1 | .thief p => 2 + p
 
 def cmdKey : Cmd → Int
-  | .push e => 100 + 3 * e | .pop => 1 | .take => 2 | .put e => 101 + 3 * e | .pass e => 102 + 3 * e | .peek => 3 | .wtake => 4 | .wpeek => 5
+  | .push e => 100 + 3 * e | .pop => 1 | .take => 2 | .put e => 101 + 3 * e | .pass e => 102 + 3 * e | .peek => 3 | .wtake => 4 | .wpeek => 5 | .clear => 6
 
 /-- canonical key of the concrete part of a configuration (slots `0..size-1`, `k` participants) -/
 def Cfg.key (c : Cfg) : List Int :=
@@ -419,7 +420,7 @@ def Cfg.key (c : Cfg) : List Int :=
   (c.tscr.map (fun l => l.map cmdKey ++ [-8])).flatten
 
 def showLbl : Lbl → String
-  | .oPush e => s!"owner:call-push({e})" | .oPop => "owner:call-pop" | .oPut e => s!"owner:call-put({e})" | .o => "owner:step" | .flushO => "owner:FLUSH"
+  | .oPush e => s!"owner:call-push({e})" | .oPop => "owner:call-pop" | .oPut e => s!"owner:call-put({e})" | .oClear => "owner:call-clear" | .o => "owner:step" | .flushO => "owner:FLUSH"
   | .tTake p => s!"thief{p}:call-take" | .tPass p e => s!"thief{p}:call-trypass({e})" | .tPeek p => s!"thief{p}:call-peek"
   | .tWTake p => s!"thief{p}:call-wsapi-take" | .tWPeek p => s!"thief{p}:call-wsapi-peek"
   | .tDecide p a => s!"thief{p}:decide({a})" | .t p => s!"thief{p}:step" | .flushT p => s!"thief{p}:FLUSH"
@@ -433,6 +434,7 @@ def Cfg.succ (c : Cfg) : List (Lbl × Cfg) :=
       (match c.oscr with
        | .push e :: rest => (match step s (.oPush e) with | some s' => [(.oPush e, { c with s := s', oscr := rest })] | none => [])
        | .pop :: rest => (match step s .oPop with | some s' => [(.oPop, { c with s := s', oscr := rest })] | none => [])
+       | .clear :: rest => (match step s .oClear with | some s' => [(.oClear, { c with s := s', oscr := rest })] | none => [])
        | .put e :: rest => (match step s (.oPut e) with | some s' => [(.oPut e, { c with s := s', oscr := rest })] | none => [])
        | _ => [])
     | _ => (match step s .o with | some s' => [(.o, { c with s := s' })] | none => [])
@@ -464,7 +466,7 @@ def Cfg.succ (c : Cfg) : List (Lbl × Cfg) :=
     visited set.  Terminal = no successor except self-loops. -/
 def Cfg.done (c : Cfg) : Bool :=
   c.oscr.isEmpty && c.tscr.all (·.isEmpty) &&
-  (match c.s.opc with | .idle => true | .stuck => true | .stuckL => true | _ => false) &&
+  (match c.s.opc with | .idle => true | .stuck => true | .stuckL => true | .assertFail => true | _ => false) &&
   (List.range c.tscr.length).all (fun p => match c.s.tpc p with | .idle => true | _ => false) &&
   c.s.bufO.isEmpty && (List.range c.tscr.length).all (fun p => (c.s.bufT p).isEmpty)
 
@@ -505,6 +507,7 @@ partial def dfs (limit : Nat) (c : Cfg) (path : List Lbl) (st : Search) : Search
 def parseCmds (w : String) : List Cmd :=
   (w.splitOn ",").filterMap fun x =>
     if x == "pop" then some Cmd.pop
+    else if x == "clear" then some Cmd.clear
     else if x == "take" then some Cmd.take
     else if x == "peek" then some Cmd.peek
     else if x == "wtake" then some Cmd.wtake
@@ -520,7 +523,7 @@ def parseCfg (w : String) : FenceCfg :=
   ⟨b 0, b 1, b 2, b 3, b 4, b 5⟩
 
 /-- `drv_wsq tso <size> <fences> <limit> <ownerscript> <thiefscript>*`
-    e.g. `tso 4 1011 200000 push1,pop take`; owner commands `pushN`, `pop`, `putN`, participant
+    e.g. `tso 4 1011 200000 push1,pop take`; owner commands `pushN`, `pop`, `putN`, `clear`, participant
     commands `take`, `peek`, `wtake` (both verdicts of the callback are explored), `wpeek`, `passN` (one `myth_queue_trypass`; a failed trylock returns without inserting) -/
 def runCli (args : List String) : IO UInt32 := do
   match args with
